@@ -375,10 +375,9 @@ func runC01(e *Engine, r *Report, tier string) {
 	// Deleting 0x23 makes the oracle start over from the last observed event nonce. If its stored nonce is ahead of that, it
 	// has votes in attestations that are still pending and could vote for those nonces again, for a competing claim
 	// (K-C01-2). Every tx-reachable deletion must therefore be guarded by `get(0x23, oracle) <= get(0x24)`.
-	for _, cs := range del23 {
-		ck := e.CanonFnKey(cs.Caller) + " delete(0x23)"
+	checkDel := func(at ssa.Instruction, addrArgs []ssa.Value, ck string) {
 		okGuard := false
-		for _, g := range GuardsOf(cs.Call) {
+		for _, g := range GuardsOf(at) {
 			ci, ok := NormCond(g)
 			if !ok || ci.X == nil || ci.Y == nil {
 				continue
@@ -401,7 +400,7 @@ func runC01(e *Engine, r *Report, tier string) {
 			// the nonce that is compared is the one of the oracle whose nonce is deleted
 			same := false
 			for _, a := range rc.Call.Args {
-				for _, b := range cs.Call.Common().Args {
+				for _, b := range addrArgs {
 					if isAddrLike(a.Type()) && isAddrLike(b.Type()) && SameExpr(a, b, 6) {
 						same = true
 					}
@@ -412,12 +411,43 @@ func runC01(e *Engine, r *Report, tier string) {
 			}
 		}
 		if okGuard {
-			r.Ok("R7", ck, e.InstrPos(cs.Call), "guarded by get(0x23, oracle) <= get(0x24): no pending vote of the oracle exists")
+			r.Ok("R7", ck, e.InstrPos(at), "guarded by get(0x23, oracle) <= get(0x24): no pending vote of the oracle exists")
 		} else {
-			r.Fail("R7", ck, e.InstrPos(cs.Call), "the oracle's last event nonce is deleted without a dominating test that it is not ahead of the last observed event nonce: an oracle with votes in pending attestations starts over from the last observed nonce and can vote for a pending nonce a second time, for a competing claim")
+			r.Fail("R7", ck, e.InstrPos(at), "the oracle's last event nonce is deleted without a dominating test that it is not ahead of the last observed event nonce: an oracle with votes in pending attestations starts over from the last observed nonce and can vote for a pending nonce a second time, for a competing claim")
 		}
 	}
-	if len(del23) == 0 {
+	// sites: call sites of the deleting primitive (its key comes from a parameter) — in transactions and in upgrade /
+	// migration code alike, only genesis import/export builds the state from scratch — and bulk deletions (key from an
+	// iterator) at the deleting instruction itself
+	nDel := 0
+	for _, so := range e.OpsOn(cc, "23", "delete") {
+		f := so.Fn
+		if isAuxPkg(fnPkgPath(f)) || strings.Contains(rootFn(f).Name(), "Genesis") {
+			continue
+		}
+		fromParam := false
+		if so.Key != nil {
+			kk := vkey(so.Key, 0)
+			for _, p := range f.Params {
+				if isAddrLike(p.Type()) && strings.Contains(kk, "P:"+p.Name()) {
+					fromParam = true
+				}
+			}
+		}
+		if !fromParam {
+			nDel++
+			checkDel(so.Instr, nil, e.CanonFnKey(f)+" bulk delete(0x23)")
+			continue
+		}
+		for _, cs := range e.CallSites(f) {
+			if isAuxPkg(fnPkgPath(cs.Caller)) || strings.Contains(rootFn(cs.Caller).Name(), "Genesis") {
+				continue
+			}
+			nDel++
+			checkDel(cs.Call, cs.Call.Common().Args, e.CanonFnKey(cs.Caller)+" delete(0x23)")
+		}
+	}
+	if nDel == 0 {
 		r.Ok("R7", "no deleter", "", "0x23 is never deleted in transaction-reachable code")
 	}
 
